@@ -234,6 +234,16 @@ class Hist(Scenario):
             self.inconclusive = "could not finish %s" % cmd
         return "done"
 
+    def report_human_edits(self):
+        """finding D29: operations that snapshot pending attribution by line number (reset, stash, switch -m, amend) do not first
+        record a person's unreported edits; while it is open those edits are reported IDE-style before such an operation."""
+        if self.profile.get("unreported_human_edit_before_rewrite", True):
+            return
+        changed = [l[3:] for l in self.w.ogit("status", "--porcelain", "-z", "--no-renames").split("\0") if l]
+        changed = [f for f in changed if self.w.read_bytes(f) is not None and not f.endswith("/")]
+        if changed:
+            self.w.human_ckpt(changed)
+
     # ------------------------------------------------------------------ commits
     def op_partial_commit(self):
         """Commit a subset of the changed files."""
@@ -303,6 +313,7 @@ class Hist(Scenario):
             self.ops.append("commit:paths")
 
     def op_amend(self):
+        self.report_human_edits()
         self.g("add", "-A")
         self.g("commit", "-q", "--amend", "--allow-empty", "-m", "amended")
         self.ops.append("amend")
@@ -509,6 +520,7 @@ class Hist(Scenario):
         if self.ncommits() < 2:
             return
         mode = mode or self.rng.choice(["--soft", "--mixed", "--hard"])
+        self.report_human_edits()
         n = 1 if self.ncommits() < 3 else self.rng.choice([1, 1, 2])
         self.g("reset", "-q", mode, "HEAD~%d" % n)
         self.ops.append("reset:" + mode)
@@ -516,6 +528,7 @@ class Hist(Scenario):
     def op_stash(self, between=None, how=None):
         rng = self.rng
         args = rng.choice([["stash"], ["stash", "push", "-q", "-u"], ["stash", "push", "-q"]])
+        self.report_human_edits()
         self.g(*args)
         self.ops.append("stash:push")
         if not self.w.ogit("stash", "list").strip():
@@ -548,6 +561,7 @@ class Hist(Scenario):
         rng = self.rng
         cur = self.current_branch() or "main"
         br = self.new_branch_name("sw")
+        self.report_human_edits()
         self.g("branch", br)
         cmd = rng.choice([["checkout", "-q"], ["switch", "-q"], ["checkout", "-q", "-m"], ["switch", "-q", "-m"]])
         self.g(*cmd, br)
